@@ -194,6 +194,7 @@ impl Recorder {
         let trail = ["", "", "", ")", "\"", "'", ".", "?", ",", ")\"", ":", "!"];
 
         self.flip_retype(_shard, _shards);
+        self.lonely_commits(_shard, _shards);
         for _ in 0..rounds {
             clean_home(&self.home);
             let mut stamp = 1u64;
@@ -470,6 +471,61 @@ impl Recorder {
                         if o.kind == "panic" { break 'passes; }
                     }
                 }
+            }
+        }
+    }
+
+    /// Directed: the list option switched off and on again by update-engine around commits.  A word with a learned choice is
+    /// typed (its list preselects a non-zero index) and committed as preselected; update-engine switches the list off; another
+    /// word is committed as single-string suggestion (index 0 - nothing can be learned: the store file must not change);
+    /// update-engine switches the list on again and both words are typed once more, compared with a brand-new context.
+    fn lonely_commits(&mut self, shard: usize, shards: usize) {
+        let words = ["e", "sesh", "amar", "a"];
+        for (n, (w1, w2)) in [(0usize, 3usize), (1, 2), (2, 0), (3, 1)].iter().enumerate() {
+            if n % shards.max(1) != shard % shards.max(1) {
+                continue;
+            }
+            let on = Cfg { layout: "phonetic".into(), psug: true, english: n % 2 == 0, smart: n % 2 == 1, db: true, ..Default::default() };
+            let off = Cfg { psug: false, ..on.clone() };
+            clean_home(&self.home);
+            let mut ctx = match Ctx::new(&on, &self.home) { Ok(c) => c, Err(_) => continue };
+            self.emit(json!({"ev": "new", "cfg": cfg_json(&on)}));
+            let store = self.home.join("openbangla-keyboard/phonetic-candidate-selection.json");
+            // (text, configuration in force, commit: 0 = index 0, 1 = another index than the preselected one, 2 = the preselected one)
+            let script: Vec<(Option<&Cfg>, &str, usize)> = vec![
+                (None, words[*w1], 1), (None, words[*w1], 2), (Some(&off), words[*w2], 0), (Some(&on), words[*w2], 2), (None, words[*w1], 2)];
+            let mut cur = on.clone();
+            'steps: for (upd, text, how) in script {
+                if let Some(c2) = upd {
+                    let o = ctx.update(c2);
+                    cur = c2.clone();
+                    self.emit(json!({"ev": "update", "cfg": cfg_json(&cur), "ongoing": o.ongoing, "panic": o.panic.clone().unwrap_or_default()}));
+                    if o.kind == "panic" { break 'steps; }
+                }
+                let mut w = Word::new();
+                let mut last = Obs::default();
+                for (i, ch) in text.chars().enumerate() {
+                    let code = self.keys.code_for_char(ch).unwrap();
+                    let o = ctx.key(code, 0, 0);
+                    if o.kind == "panic" {
+                        self.emit(merge(json!({"ev": "key", "code": code, "mod": 0, "sel": 0, "fresh": "na", "fwhat": ""}), Self::ret_fields(&o)));
+                        break 'steps;
+                    }
+                    w.comp.push(ch);
+                    let (f, what) = if i + 1 == text.chars().count() { self.shadow_compare(&cur, &w, &o, true, 0) } else { ("skip", String::new()) };
+                    self.emit(merge(json!({"ev": "key", "code": code, "mod": 0, "sel": 0, "fresh": f, "fwhat": what}), Self::ret_fields(&o)));
+                    last = o;
+                }
+                let n_c = last.len();
+                if n_c == 0 { continue; }
+                let idx = match how { 0 => 0, 1 => if n_c > 1 { (last.sel + 1) % n_c } else { 0 }, _ => last.sel.min(n_c - 1) };
+                let before = std::fs::read(&store).ok();
+                let o = ctx.commit(idx);
+                let after = std::fs::read(&store).ok();
+                let learnable = last.kind == "full" && idx != last.sel;
+                self.emit(json!({"ev": "commit", "idx": idx, "ongoing": o.ongoing, "panic": o.panic.clone().unwrap_or_default(),
+                                 "filechg": before != after, "learnable": learnable}));
+                if o.kind == "panic" { break 'steps; }
             }
         }
     }
